@@ -8,6 +8,7 @@ import (
 	"path/filepath"
 	"strconv"
 	"strings"
+	"unicode"
 )
 
 // buildOk returns true if a file or script matches build constraints
@@ -34,11 +35,21 @@ func (interp *Interpreter) buildOk(ctx *build.Context, name, src string) (bool, 
 // buildLineOk returns true if line is not a build constraint or
 // if build constraint is satisfied.
 func buildLineOk(ctx *build.Context, line string) (ok bool) {
-	if len(line) < 7 || line[:7] != "+build " {
+	line = strings.TrimSpace(line)
+	if !strings.HasPrefix(line, "+build") {
+		return true
+	}
+	line = line[len("+build"):]
+	if line != "" && !unicode.IsSpace(rune(line[0])) {
+		// Something like "+buildfoo" is not a build constraint.
 		return true
 	}
 	// In line, evaluate the OR of space-separated options
-	options := strings.Split(strings.TrimSpace(line[6:]), " ")
+	options := strings.Fields(line)
+	if len(options) == 0 {
+		// An empty constraint is never satisfied, unless "ignore" is set.
+		return matchBuildTag(ctx, "ignore")
+	}
 	for _, o := range options {
 		if ok = buildOptionOk(ctx, o); ok {
 			break
@@ -60,29 +71,72 @@ func buildOptionOk(ctx *build.Context, tag string) bool {
 
 // buildTagOk returns true if a build tag matches, false otherwise
 // if first character is !, result is negated.
+// As in go/build, a malformed tag (empty, "!", "!!tag" or containing characters
+// other than letters, digits, '_' and '.') stands for the tag "ignore".
 func buildTagOk(ctx *build.Context, s string) (r bool) {
-	not := s[0] == '!'
+	if s == "!" || strings.HasPrefix(s, "!!") {
+		return matchBuildTag(ctx, "ignore")
+	}
+	not := strings.HasPrefix(s, "!")
 	if not {
 		s = s[1:]
 	}
-	switch {
-	case contains(ctx.BuildTags, s):
-		r = true
-	case s == ctx.GOOS:
-		r = true
-	case s == ctx.GOARCH:
-		r = true
-	case len(s) > 4 && s[:4] == "go1.":
-		if n, err := strconv.Atoi(s[4:]); err != nil {
-			r = false
-		} else {
-			r = goMinorVersion(ctx) >= n
-		}
+	if !isValidBuildTag(s) {
+		s = "ignore"
 	}
+	r = matchBuildTag(ctx, s)
 	if not {
 		r = !r
 	}
 	return
+}
+
+// isValidBuildTag reports whether the word is a syntactically valid build tag.
+func isValidBuildTag(word string) bool {
+	return word != "" && strings.IndexFunc(word, func(c rune) bool {
+		return !unicode.IsLetter(c) && !unicode.IsDigit(c) && c != '_' && c != '.'
+	}) < 0
+}
+
+// unixOS is the set of GOOS values matched by the "unix" build tag.
+var unixOS = map[string]bool{
+	"aix":       true,
+	"android":   true,
+	"darwin":    true,
+	"dragonfly": true,
+	"freebsd":   true,
+	"hurd":      true,
+	"illumos":   true,
+	"ios":       true,
+	"linux":     true,
+	"netbsd":    true,
+	"openbsd":   true,
+	"solaris":   true,
+}
+
+// matchBuildTag reports whether the tag is satisfied by the build context,
+// following the rules of go/build.
+func matchBuildTag(ctx *build.Context, s string) bool {
+	switch {
+	case s == ctx.GOOS, s == ctx.GOARCH:
+		return true
+	case ctx.GOOS == "android" && s == "linux":
+		return true
+	case ctx.GOOS == "illumos" && s == "solaris":
+		return true
+	case ctx.GOOS == "ios" && s == "darwin":
+		return true
+	case s == "unix" && unixOS[ctx.GOOS]:
+		return true
+	case contains(ctx.BuildTags, s):
+		return true
+	case len(s) > 4 && s[:4] == "go1.":
+		// Release tag: go1.n is satisfied by any release from go1.n on.
+		// The number must be in canonical form (no sign, no leading zero).
+		n, err := strconv.Atoi(s[4:])
+		return err == nil && s[4] >= '1' && s[4] <= '9' && goMinorVersion(ctx) >= n
+	}
+	return false
 }
 
 // setYaegiTags scans a comment group for "yaegi:tags tag1 tag2 ..." lines
@@ -130,40 +184,38 @@ func goMinorVersion(ctx *build.Context) int {
 }
 
 // skipFile returns true if file should be skipped.
+// The file name rule is the one of go/build: after removing the extension
+// (everything from the first dot) and a _test suffix, a name ending in
+// _GOOS, _GOARCH or _GOOS_GOARCH for any known operating system or
+// architecture constrains the file to that system.
 func skipFile(ctx *build.Context, p string, skipTest bool) bool {
 	if !strings.HasSuffix(p, ".go") {
 		return true
 	}
-	p = strings.TrimSuffix(path.Base(p), ".go")
-	if pp := filepath.Base(p); strings.HasPrefix(pp, "_") || strings.HasPrefix(pp, ".") {
+	p = filepath.Base(path.Base(p))
+	if strings.HasPrefix(p, "_") || strings.HasPrefix(p, ".") {
 		return true
 	}
-	if skipTest && strings.HasSuffix(p, "_test") {
+	if skipTest && strings.HasSuffix(p, "_test.go") {
 		return true
+	}
+	if i := strings.Index(p, "."); i >= 0 {
+		p = p[:i]
 	}
 	i := strings.Index(p, "_")
 	if i < 0 {
 		return false
 	}
-	a := strings.Split(p[i+1:], "_")
-	last := len(a) - 1
-	if last-1 >= 0 {
-		switch x, y := a[last-1], a[last]; {
-		case x == ctx.GOOS:
-			if knownArch[y] {
-				return y != ctx.GOARCH
-			}
-			return false
-		case knownOs[x] && knownArch[y]:
-			return true
-		case knownArch[y] && y != ctx.GOARCH:
-			return true
-		default:
-			return false
-		}
+	a := strings.Split(p[i:], "_")
+	if n := len(a); n > 0 && a[n-1] == "test" {
+		a = a[:n-1]
 	}
-	if x := a[last]; knownOs[x] && x != ctx.GOOS || knownArch[x] && x != ctx.GOARCH {
-		return true
+	n := len(a)
+	if n >= 2 && knownOs[a[n-2]] && knownArch[a[n-1]] {
+		return !matchBuildTag(ctx, a[n-1]) || !matchBuildTag(ctx, a[n-2])
+	}
+	if n >= 1 && (knownOs[a[n-1]] || knownArch[a[n-1]]) {
+		return !matchBuildTag(ctx, a[n-1])
 	}
 	return false
 }
@@ -174,30 +226,44 @@ var knownOs = map[string]bool{
 	"darwin":    true,
 	"dragonfly": true,
 	"freebsd":   true,
+	"hurd":      true,
 	"illumos":   true,
 	"ios":       true,
 	"js":        true,
 	"linux":     true,
+	"nacl":      true,
 	"netbsd":    true,
 	"openbsd":   true,
 	"plan9":     true,
 	"solaris":   true,
 	"wasip1":    true,
 	"windows":   true,
+	"zos":       true,
 }
 
 var knownArch = map[string]bool{
-	"386":      true,
-	"amd64":    true,
-	"arm":      true,
-	"arm64":    true,
-	"loong64":  true,
-	"mips":     true,
-	"mips64":   true,
-	"mips64le": true,
-	"mipsle":   true,
-	"ppc64":    true,
-	"ppc64le":  true,
-	"s390x":    true,
-	"wasm":     true,
+	"386":         true,
+	"amd64":       true,
+	"amd64p32":    true,
+	"arm":         true,
+	"armbe":       true,
+	"arm64":       true,
+	"arm64be":     true,
+	"loong64":     true,
+	"mips":        true,
+	"mipsle":      true,
+	"mips64":      true,
+	"mips64le":    true,
+	"mips64p32":   true,
+	"mips64p32le": true,
+	"ppc":         true,
+	"ppc64":       true,
+	"ppc64le":     true,
+	"riscv":       true,
+	"riscv64":     true,
+	"s390":        true,
+	"s390x":       true,
+	"sparc":       true,
+	"sparc64":     true,
+	"wasm":        true,
 }
